@@ -311,9 +311,10 @@ func evaluateOperatorValue(node *ExprNode, data map[string]any) (any, error) {
 
 	// Check if it's a logical operator
 	if isLogicalOperator(node.Value) {
-		// For logical operators, use boolean evaluation
-		result, err := evaluateBoolOperator(node, data)
-		if err != nil {
+		// For logical operators, use SQL three-valued evaluation: the value is
+		// NULL (nil) when a NULL or missing operand decides the result
+		result, isNull, err := evaluateConditionWithNull(node, data)
+		if err != nil || isNull {
 			return nil, err
 		}
 		return result, nil
